@@ -46,7 +46,10 @@ func ManageDeployment(client runtimeclient.Client, daemonset *datadoghqv1alpha1.
 	var desiredPods, availablePods, readyPods, oldUnavailablePods, createdPods, allPods, oldAvailablePods, podsTerminating, nbIgnoredUnresponsiveNodes int32
 
 	allPodToCreate := []*NodeItem{}
-	allPodToDelete := []*NodeItem{}
+	// Outdated pods are split by availability: the deletion budget computed below assumes that
+	// already unavailable pods are replaced first.
+	unavailablePodToDelete := []*NodeItem{}
+	availablePodToDelete := []*NodeItem{}
 
 	nbNodes := len(params.PodByNodeName)
 
@@ -71,17 +74,17 @@ func ManageDeployment(client runtimeclient.Client, daemonset *datadoghqv1alpha1.
 			allPods++
 			// Check for any differences between stored pod and existing pod
 			if !compareCurrentPodWithNewPod(params, pod, node) {
-				if pod.DeletionTimestamp == nil {
-					allPodToDelete = append(allPodToDelete, node)
-				} else {
+				if pod.DeletionTimestamp != nil {
 					podsTerminating++
 
 					continue
 				}
 				if podutils.IsPodAvailable(pod, 0, metaNow) {
 					oldAvailablePods++
+					availablePodToDelete = append(availablePodToDelete, node)
 				} else {
 					oldUnavailablePods++
+					unavailablePodToDelete = append(unavailablePodToDelete, node)
 				}
 			} else {
 				createdPods++
@@ -94,6 +97,8 @@ func ManageDeployment(client runtimeclient.Client, daemonset *datadoghqv1alpha1.
 			}
 		}
 	}
+
+	allPodToDelete := append(unavailablePodToDelete, availablePodToDelete...)
 
 	// Retrieves parameters for calculation
 	maxUnavailable, err := intstrutil.GetValueFromIntOrPercent(params.Strategy.RollingUpdate.MaxUnavailable, nbNodes, true)
